@@ -334,6 +334,7 @@ type factorizer struct {
 	steps    map[string]bool
 	local    map[string]bool // names of groupings that are only in scope below some node
 	augWhere map[string]string
+	localAt  map[string][]*yn // local grouping name -> nodes holding a grouping of that name
 	gseq     int
 	useFeat  bool
 }
@@ -375,6 +376,16 @@ func (f *factorizer) scoped(y *yn) bool {
 	}
 	for _, k := range y.kids {
 		if f.scoped(k) {
+			return true
+		}
+	}
+	return false
+}
+
+// within reports whether inner is a descendant of outer.
+func within(outer, inner *yn) bool {
+	for _, k := range outer.kids {
+		if k == inner || within(k, inner) {
 			return true
 		}
 	}
@@ -447,18 +458,38 @@ func (f *factorizer) outlineGrouping() {
 	g := &yn{kw: "grouping", arg: gname, kids: run}
 	usesArg := gname
 	// where does the grouping live?
-	place := f.r.Intn(5)
+	place := f.r.Intn(7)
 	switch {
-	case place == 0 && len(s.chain) > 0:
+	case place >= 4 && len(s.chain) > 0:
 		// local to a random ancestor (or the node itself): sibling-scoped / nested grouping
 		anc := s.chain[f.r.Intn(len(s.chain))]
 		if anc.kw != "container" && anc.kw != "list" && anc.kw != "grouping" {
 			f.top = append([]*yn{g}, f.top...)
 			f.step("grouping-module")
 		} else {
+			// sibling scopes may reuse a grouping name (never an enclosing or enclosed scope: RFC 7950 5.5)
+			if f.r.Intn(2) == 0 {
+				for name, holders := range f.localAt {
+					ok := true
+					for _, h := range holders {
+						if h == anc || within(h, anc) || within(anc, h) {
+							ok = false
+						}
+					}
+					if ok {
+						g.arg = name
+						u0 := name
+						gname = u0
+						usesArg = u0
+						f.step("grouping-local-same-name-in-sibling-scope")
+						break
+					}
+				}
+			}
 			anc.kids = append([]*yn{g}, anc.kids...)
 			f.step("grouping-local")
 			f.local[gname] = true
+			f.localAt[gname] = append(f.localAt[gname], anc)
 			if anc == s.node {
 				start++
 				end++
@@ -486,10 +517,62 @@ func (f *factorizer) outlineGrouping() {
 		f.step("grouping-module")
 	}
 	u := &yn{kw: "uses", arg: usesArg}
+	if f.r.Intn(3) == 0 {
+		f.usesAugment(u, run)
+	}
 	nk := append([]*yn{}, (*kids)[:start]...)
 	nk = append(nk, u)
 	nk = append(nk, (*kids)[end:]...)
 	*kids = nk
+}
+
+// usesAugment moves a suffix of the children of a container / list inside the grouped run out into an
+// augment statement under the uses (relative target path).
+func (f *factorizer) usesAugment(u *yn, run []*yn) {
+	type tgt struct {
+		node *yn
+		path []string
+	}
+	var tgts []tgt
+	var rec func(n *yn, path []string)
+	rec = func(n *yn, path []string) {
+		if n.kw == "grouping" || n.kw == "uses" || n.kw == "augment" {
+			return
+		}
+		p := append(append([]string{}, path...), n.arg)
+		if n.kw == "container" || n.kw == "list" || n.kw == "case" {
+			tgts = append(tgts, tgt{n, p})
+		}
+		for _, k := range n.kids {
+			rec(k, p)
+		}
+	}
+	for _, r := range run {
+		rec(r, nil)
+	}
+	if len(tgts) == 0 {
+		return
+	}
+	t := tgts[f.r.Intn(len(tgts))]
+	n := len(t.node.kids)
+	cut := n
+	for cut > 1 {
+		k := t.node.kids[cut-1]
+		if !dataKid(k) || k.kw == "uses" || isKeyLeaf(t.node, k) || f.scoped(k) {
+			break
+		}
+		cut--
+		if f.r.Intn(2) == 0 {
+			break
+		}
+	}
+	if cut >= n || cut == 0 {
+		return
+	}
+	moved := append([]*yn{}, t.node.kids[cut:]...)
+	t.node.kids = t.node.kids[:cut]
+	u.kids = append(u.kids, &yn{kw: "augment", arg: "\"" + strings.Join(t.path, "/") + "\"", kids: moved})
+	f.step("augment-uses-level")
 }
 
 // outlineAugment moves a suffix of the children of a top-level-reachable node into a module-level augment.
@@ -541,6 +624,16 @@ func (f *factorizer) outlineAugment() {
 	for _, k := range moved {
 		if !dataKid(k) || f.scoped(k) {
 			return
+		}
+	}
+	// a node that is (on the way to) the target of an augment written earlier must stay where it is: the
+	// library applies augments in textual order, so the one creating a target has to come first
+	for _, k := range moved {
+		pre := strings.Join(append(append([]string{}, t.path...), k.arg), "/")
+		for existing := range f.augWhere {
+			if existing == pre || strings.HasPrefix(existing, pre+"/") {
+				return
+			}
 		}
 	}
 	t.node.kids = t.node.kids[:cut]
@@ -797,7 +890,7 @@ func (p c01) Run(c *core.Ctx, idx int) {
 	}
 	var first string
 	for sp := 0; sp < nsp; sp++ {
-		f := &factorizer{r: r, steps: map[string]bool{}, local: map[string]bool{}, augWhere: map[string]string{}}
+		f := &factorizer{r: r, steps: map[string]bool{}, local: map[string]bool{}, augWhere: map[string]string{}, localAt: map[string][]*yn{}}
 		if ru == nil {
 			f.top = toSyntax(sem)
 		} else {
@@ -828,7 +921,7 @@ func (p c01) Run(c *core.Ctx, idx int) {
 			}
 		}
 		if sp > 0 {
-			nsteps := 1 + r.Intn(4)
+			nsteps := 1 + r.Intn(6)
 			for k := 0; k < nsteps; k++ {
 				switch r.Intn(6) {
 				case 0, 1, 2:
